@@ -490,6 +490,17 @@ impl<'a> Gen<'a> {
             });
             made.push(self.classes.len() - 1);
         }
+        // an unrelated exception for the "covered through an ancestor" production below:
+        // defined here with the others, or later right before its use
+        let with_cover = self.rng.chance(1, 2);
+        let mut other_early: Option<String> = None;
+        if with_cover && self.rng.chance(2, 3) {
+            self.counter += 1;
+            let other = format!("{}Err{}", capitalise(&self.prefix), self.counter);
+            self.out.push_str(&format!("class {other}(msg: Str): Exception(msg)\n"));
+            self.classes.push(ClassInfo { name: other.clone(), args: vec![("msg".into(), Ty::Str, false, false)], fields: vec![], methods: vec![], parents: vec![], is_exception: true });
+            other_early = Some(other);
+        }
         self.out.push('\n');
         // a raising function and a handled use
         let k = self.rng.range(1, made.len() as u64) as usize;
@@ -509,23 +520,67 @@ impl<'a> Gen<'a> {
         let l = self.lit(&ret);
         self.out.push_str(&format!("{indent}return {}\n\n", l));
         self.funs.push(FunInfo { name: fname.clone(), params: vec![("x".into(), Ty::Int, false)], ret: ret.clone(), raises: raised.clone() });
-        // handled use
-        let v = self.fresh("h");
-        self.out.push_str(&format!("def {} := {}({}) handle\n", v, fname, self.rng.below(30)));
-        let mut order = raised.clone();
-        if self.rng.chance(1, 2) {
-            self.rng.shuffle(&mut order);
-        }
-        for &e in &order {
-            let l = self.lit(&ret);
+        // handled use (mostly)
+        if !with_cover || self.rng.chance(1, 2) {
+            let v = self.fresh("h");
+            self.out.push_str(&format!("def {} := {}({}) handle\n", v, fname, self.rng.below(30)));
+            let mut order = raised.clone();
             if self.rng.chance(1, 2) {
-                self.out.push_str(&format!("    err: {} => {}\n", self.classes[e].name, l));
+                self.rng.shuffle(&mut order);
+            }
+            for &e in &order {
+                let l = self.lit(&ret);
+                if self.rng.chance(1, 2) {
+                    self.out.push_str(&format!("    err: {} => {}\n", self.classes[e].name, l));
+                } else {
+                    self.out.push_str(&format!("    err: {} =>\n        print(\"{}\")\n        {}\n", self.classes[e].name, self.rng.pick(WORDS), l));
+                }
+            }
+            self.out.push('\n');
+            self.vars.push((v, ret.clone()));
+        }
+        // inside function bodies: the raised exceptions covered through their ancestors only,
+        // next to an unrelated exception — by declaration (`raise [Parent, Other]`) or by
+        // `handle` arms, in either order
+        if with_cover {
+            let other = match other_early {
+                Some(o) => o,
+                None => {
+                    self.counter += 1;
+                    let other = format!("{}Err{}", capitalise(&self.prefix), self.counter);
+                    self.out.push_str(&format!("class {other}(msg: Str): Exception(msg)\n\n"));
+                    self.classes.push(ClassInfo { name: other.clone(), args: vec![("msg".into(), Ty::Str, false, false)], fields: vec![], methods: vec![], parents: vec![], is_exception: true });
+                    other
+                }
+            };
+            // cover: for each raised exception its top-most generated ancestor (or itself)
+            let mut cover: Vec<String> = vec![];
+            for &e in &raised {
+                let mut top = e;
+                while let Some(&p) = self.classes[top].parents.first() {
+                    top = p;
+                }
+                let n = self.classes[top].name.clone();
+                if !cover.contains(&n) {
+                    cover.push(n);
+                }
+            }
+            cover.push(other);
+            if self.rng.chance(1, 2) {
+                self.rng.shuffle(&mut cover);
+            }
+            let g = self.fresh("rf");
+            if self.rng.chance(1, 2) {
+                self.out.push_str(&format!("def {g}(x: Int) -> {} raise [{}] => {fname}(x)\n\n", self.ty_name(&ret), cover.join(", ")));
             } else {
-                self.out.push_str(&format!("    err: {} =>\n        print(\"{}\")\n        {}\n", self.classes[e].name, self.rng.pick(WORDS), l));
+                self.out.push_str(&format!("def {g}(x: Int) -> {} =>\n    {fname}(x) handle\n", self.ty_name(&ret)));
+                for c in &cover {
+                    let l = self.lit(&ret);
+                    self.out.push_str(&format!("        err: {c} => {l}\n"));
+                }
+                self.out.push('\n');
             }
         }
-        self.out.push('\n');
-        self.vars.push((v, ret));
     }
 
     fn gen_function(&mut self) {
@@ -603,9 +658,15 @@ impl<'a> Gen<'a> {
     fn union_ty(&mut self) -> (String, Vec<Ty>) {
         let n = self.rng.range(2, 3) as usize;
         let mut tys: Vec<Ty> = vec![];
+        let avoid_related = self.fenced.contains("union_of_related_types");
         for _ in 0..12 {
             let t = self.any_ty();
-            if !tys.contains(&t) {
+            let related = |a: &Ty, b: &Ty, g: &Self| match (a, b) {
+                (Ty::Int, Ty::Float) | (Ty::Float, Ty::Int) => true,
+                (Ty::Class(x), Ty::Class(y)) => g.is_subclass(*x, *y) || g.is_subclass(*y, *x),
+                _ => false,
+            };
+            if !tys.contains(&t) && !(avoid_related && tys.iter().any(|o| related(o, &t, self))) {
                 tys.push(t);
             }
             if tys.len() == n {
@@ -626,7 +687,8 @@ impl<'a> Gen<'a> {
         let (rt, rtys) = self.union_ty();
         let p = self.fresh("p");
         let body = self.lit(&rtys[0]);
-        match self.rng.below(3) {
+        let no_union_ret = self.fenced.contains("written_union_return_type");
+        match if no_union_ret { 1 } else { self.rng.below(3) } {
             0 => self.out.push_str(&format!("def {name}({p}: {pt}) -> {rt} => {body}\n\n")),
             1 => self.out.push_str(&format!("def {name}({p}: {pt}) -> {} => {}\n\n", self.ty_name(&rtys[0]), body)),
             _ => {
@@ -687,6 +749,9 @@ impl<'a> Gen<'a> {
         }
         let mut prims = vec![Ty::Int, Ty::Str, Ty::Bool, Ty::Float];
         self.rng.shuffle(&mut prims);
+        if self.fenced.contains("union_of_related_types") && matches!((&prims[0], &prims[1]), (Ty::Int, Ty::Float) | (Ty::Float, Ty::Int)) {
+            prims.swap(1, 2);
+        }
         let (t1, t2) = (prims[0].clone(), prims[1].clone());
         let (n1, n2) = (self.ty_name(&t1), self.ty_name(&t2));
         let r = self.fresh("v");
@@ -708,6 +773,58 @@ impl<'a> Gen<'a> {
                 let i = self.fresh("i");
                 let w = self.fresh("w");
                 self.out.push_str(&format!("def {v}: {{List[{n1}], Set[{n2}]}} := {lit}\nfor {i} in {v} do\n    def {w} := {i}\n"));
+            }
+        }
+    }
+
+    /// functions as values: function-typed parameters, unions of function types (also of
+    /// different arity), calls through them, anonymous functions as arguments
+    fn gen_callable(&mut self) {
+        let f = self.fresh("hof");
+        let p = self.fresh("p");
+        let x = self.fresh("p");
+        let (a, r) = (self.prim(), self.prim());
+        let (an, rn) = (self.ty_name(&a), self.ty_name(&r));
+        match self.rng.below(4) {
+            0 => {
+                // single function type and a call with an anonymous function
+                self.out.push_str(&format!("def {f}({p}: ({an}) -> {rn}, {x}: {an}) -> {rn} => {p}({x})\n"));
+                let z = self.fresh("z");
+                let body = if a == r { z.clone() } else { self.lit(&r) };
+                let arg = self.lit(&a);
+                if self.rng.chance(2, 3) {
+                    self.out.push_str(&format!("{f}(\\{z}: {an} => {body}, {arg})\n"));
+                }
+            }
+            1 => {
+                // union of function types with different arities, called with one argument
+                let b = self.prim();
+                let bn = self.ty_name(&b);
+                let members = if self.rng.chance(1, 2) { format!("({an}) -> {rn}, ({an}, {bn}) -> {rn}") } else { format!("({an}, {bn}) -> {rn}, ({an}) -> {rn}") };
+                if self.rng.chance(1, 2) {
+                    self.out.push_str(&format!("def {f}({p}: {{{members}}}, {x}: {an}) -> {rn} => {p}({x})\n"));
+                } else {
+                    let y = self.fresh("p");
+                    self.out.push_str(&format!("def {f}({p}: {{{members}}}, {x}: {an}, {y}: {bn}) -> {rn} => {p}({x}, {y})\n"));
+                }
+            }
+            2 => {
+                // union of function types of one arity with different parameter types
+                let mut b = self.prim();
+                if b == a || (self.fenced.contains("union_of_related_types") && matches!((&a, &b), (Ty::Int, Ty::Float) | (Ty::Float, Ty::Int))) {
+                    b = if a == Ty::Str { Ty::Bool } else { Ty::Str };
+                }
+                let bn = self.ty_name(&b);
+                let arg = self.lit(&a);
+                self.out.push_str(&format!("def {f}({p}: {{({an}) -> {rn}, ({bn}) -> {rn}}}) -> {rn} => {p}({arg})\n"));
+            }
+            _ => {
+                // function returning a function type, default argument
+                let d = self.lit_const(&a);
+                self.out.push_str(&format!("def {f}({p}: ({an}) -> {rn}, {x}: {an} := {d}) -> {rn} => {p}({x})\n"));
+                let z = self.fresh("z");
+                let body = if a == r { z.clone() } else { self.lit(&r) };
+                self.out.push_str(&format!("print({f}(\\{z}: {an} => {body}))\n"));
             }
         }
     }
@@ -815,6 +932,19 @@ impl<'a> Gen<'a> {
         };
         let kind = self.rng.below(3);
         let arms: Vec<String> = (0..n).map(|i| coll(self, &prims[i].clone(), kind)).collect();
+        if self.rng.chance(1, 4) {
+            // nested heterogeneous literals of one class: the element type of the outer literal
+            // is a union of two Set[..] / List[..] whose element types are unions themselves
+            let lits: Vec<String> = prims.iter().map(|t| self.lit(t)).collect();
+            let (o, c) = if self.rng.chance(1, 2) { ("{ ", " }") } else { ("[ ", " ]") };
+            let (io, ic) = if self.rng.chance(1, 2) { ("{ ", " }") } else { ("[ ", " ]") };
+            if self.rng.chance(2, 3) {
+                self.out.push_str(&format!("def {v} := {o}{io}{}, {}{ic}, {io}{}, {}{ic}{c}\n", lits[0], lits[1], lits[2], lits[3]));
+            } else {
+                self.out.push_str(&format!("def {v} := {{ 1 => {io}{}, {}{ic}, 2 => {io}{}, {}{ic} }}\n", lits[0], lits[1], lits[2], lits[3]));
+            }
+            return;
+        }
         match self.rng.below(4) {
             0 => {
                 let c = self.cond();
@@ -838,7 +968,7 @@ impl<'a> Gen<'a> {
                 let u = format!("{{{}}}", tys.join(", "));
                 let f = self.fresh("ufn");
                 let p = self.fresh("p");
-                if self.rng.chance(1, 2) {
+                if !self.fenced.contains("written_union_return_type") && self.rng.chance(1, 2) {
                     self.out.push_str(&format!("def {f}({p}: {u}) -> {u} => {p}\n"));
                 } else {
                     self.out.push_str(&format!("def {f}({p}: {u}) => print(\"{}\")\n", self.rng.pick(WORDS)));
@@ -848,7 +978,7 @@ impl<'a> Gen<'a> {
                 // T and T? in one union
                 let t = self.ty_name(&prims[0]);
                 let l = self.lit(&prims[0].clone());
-                match self.rng.below(2) {
+                match if self.fenced.contains("written_union_return_type") { 0 } else { self.rng.below(2) } {
                     0 => self.out.push_str(&format!("def {v}: {{{t}, {t}?}} := {l}\n")),
                     _ => {
                         let f = self.fresh("ufn");
@@ -874,11 +1004,12 @@ impl<'a> Gen<'a> {
 
     fn gen_toplevel(&mut self) {
         let v = self.fresh("v");
-        let kinds = if self.conservative { 17 } else { 25 };
+        let kinds = if self.conservative { 17 } else { 27 };
         match self.rng.below(kinds) {
             18 | 19 | 20 => self.gen_same_class_union(&v),
             21 | 22 | 23 => self.gen_union_receiver(&v),
             24 => self.gen_alias(),
+            25 | 26 => self.gen_callable(),
             16 => {
                 let (ut, tys) = self.union_ty();
                 let k = self.rng.below(tys.len() as u64) as usize;
